@@ -58,7 +58,7 @@ def array_forms(u, c, vals, kind, with_unit_only):
 
     mk = {"list": list, "tuple": tuple, "nd": lambda x: np.array(x, dtype=float),
           # rows of values (k tuples of w numbers, k != w): the dimension is the number of rows
-          "rows": lambda x: [(t, t + 1.0, t + 2.0, 0.5) for t in x], "rows-tuple": lambda x: tuple((t, 1.0) for t in x)}[kind]
+          "rows": lambda x: [(t, t + 1.0, t + 2.0, 0.5) for t in x], "rows-tuple": lambda x: tuple((t, 1.0) for t in x), "rows-lists": lambda x: [[t, t + 1.0] for t in x]}[kind]
     n = len(vals)
     F = [
         ("Array(values,u,c)", lambda: Array(mk(vals), u, c)),
@@ -348,7 +348,7 @@ def rows_and_subclasses(ctx, db):
     from barril.units import Scalar
 
     for u, c in (("m", "length"), ("degC", "temperature"), ("1000ft3/d", "volume flow rate")):
-        for kind in ("rows", "rows-tuple"):
+        for kind in ("rows", "rows-tuple", "rows-lists"):
             for vals in ([1.0, 2.0, 3.0], [5.0, -1.0], [1.0, 2.0, 3.0, 4.0, 5.0]):
                 case = {"unit": u, "category": c, "container": kind, "rows": len(vals)}
                 ctx.nt(("rows", u, kind, len(vals)))
@@ -374,6 +374,39 @@ def rows_and_subclasses(ctx, db):
         except Exception as e:
             ctx.violation("Scalar:subclass-form-raised:%s" % type(e).__name__, dict(case, error=str(e)[:160]))
     ctx.count("application subclasses of Scalar through the forms", 4)
+
+
+def cleared_and_refilled(ctx):
+    """One database object used, emptied (`Clear`) and filled again with a table that gives a unit *another* default category:
+    the unit-only forms build what the table says now, like the explicit forms."""
+    from barril.units import Scalar, UnitDatabase
+
+    db = UnitDatabase()
+    with table.pushed(db):
+        for generation, own_cat in ((1, "duration"), (2, None), (3, "spell")):
+            if generation > 1:
+                db.Clear()
+            db.AddUnitBase("time", "second", "s")
+            db.AddUnit("time", "minute", "min", "%f/60.0", "%f*60.0", default_category=own_cat)
+            db.AddUnitBase("length", "metre", "m")
+            db.AddCategory("time", "time")
+            db.AddCategory("length", "length")
+            if own_cat:
+                db.AddCategory(own_cat, "time", default_unit="min")
+            for u, c in (("min", own_cat or "time"), ("s", "time"), ("m", "length")):
+                for v in (1.0, -2.5):
+                    case = {"database": "emptied and filled again", "generation": generation, "unit": u, "category": c, "value": v}
+                    ctx.nt(("refilled", generation, u))
+                    # (the unit-only forms first: that is when they are remembered on their own)
+                    compare_forms(ctx, scalar_forms(u, c, v, True)[::-1], case, "Scalar")
+                    fa, ga = array_forms(u, c, [v, 2.0, 3.0], "list", True)
+                    compare_forms(ctx, fa, case, "Array[list]")
+                    compare_forms(ctx, ga, case, "FixedArray[list]")
+                    compare_forms(ctx, fraction_forms(u, c, v, True), case, "FractionScalar")
+                    ctx.ev()
+                    if Scalar(v, u).GetCategory() != c:
+                        ctx.violation("Scalar:unit-only-form-builds-the-default-category-of-an-earlier-table", dict(case, got=Scalar(v, u).GetCategory()))
+    ctx.count("generations of one database object")
 
 
 def registered_later(ctx):
@@ -559,6 +592,7 @@ def run(ctx):
             ctx.sample({"unit": "cP", "default category": db.GetDefaultCategory("cP"), "forms": [n for n, _ in scalar_forms("cP", "x", 1.0, True)]})
     if ctx.shard == 0:
         registered_later(ctx)
+        cleared_and_refilled(ctx)
     walk_orders(ctx)
     ctx.inconclusive_if(probe.BOUNDARY["Scalar.__init__"] < 1000, "Scalar constructor reached fewer than 1000 times")
 
